@@ -223,9 +223,19 @@ func vhC02Run(a []int, twin bool) {
 // vh_C10_threshold: the verdict does not depend on the iteration order of the link map.
 func vh_C10_threshold(a []int) {
 	c := vhC02Build(a)
-	_, e1 := VerifyLinkSignatureThesholds(c.layout, c.md, nil, nil)
-	_, e2 := VerifyLinkSignatureThesholds(c.layout, c.md, nil, nil)
+	v1, e1 := VerifyLinkSignatureThesholds(c.layout, c.md, nil, nil)
+	v2, e2 := VerifyLinkSignatureThesholds(c.layout, c.md, nil, nil)
 	vObserve("threshold2", e1 == nil, e2 == nil)
 	vAssert("C10.threshold-verdict-order-independent", (e1 == nil) == (e2 == nil))
+	if e1 == nil && e2 == nil {
+		// the set of counted links feeds the reduction and the summary: it must not depend on the order either
+		same := len(v1["s1"]) == len(v2["s1"])
+		for k, m := range v1["s1"] {
+			if v2["s1"][k] != m {
+				same = false
+			}
+		}
+		vAssert("C10.counted-links-order-independent", same)
+	}
 	vReach("C10.end")
 }
